@@ -11,10 +11,11 @@ import time
 import typing
 import warnings
 
-from .. import e2e, schemagen
+from .. import classscope as cs
+from .. import e2e, fieldcover, schemagen
 from .. import typetrees as tt
 from ..common import REPO, Rng, hx, unhx
-from ..runner import Check
+from ..runner import Check, match_finding
 
 # ---------------------------------------------------------------- S-expressions of the driver replies
 def parse_sx(text: str):
@@ -339,77 +340,18 @@ def campaign_type_imports(ck: Check, n: int, thorough: bool) -> None:
 
 
 # ---------------------------------------------------------------- static scope analysis of an emitted module
-BUILTINS = set(dir(builtins))
-
-
-def names_in(node: ast.AST, skip_literal: bool = True) -> list[str]:
-    """identifiers read in an expression; string constants are forward references (parsed), except
-    inside Literal[...]"""
-    out: list[str] = []
-
-    def visit(n):
-        if isinstance(n, ast.Subscript) and isinstance(n.value, ast.Name) and n.value.id == "Literal" and skip_literal:
-            out.append("Literal")
-            return
-        if isinstance(n, ast.Name) and isinstance(n.ctx, ast.Load):
-            out.append(n.id)
-        elif isinstance(n, ast.Attribute):
-            visit(n.value)
-            return
-        elif isinstance(n, ast.Lambda):
-            visit(n.body)
-            return
-        for c in ast.iter_child_nodes(n):
-            visit(c)
-
-    visit(node)
-    return out
-
-
-def annotation_names(node: ast.AST) -> list[str]:
-    out = names_in(node)
-
-    def strings(n, in_literal=False, in_meta=False):
-        if isinstance(n, ast.Subscript) and isinstance(n.value, ast.Name) and n.value.id == "Literal":
-            return
-        if isinstance(n, ast.Subscript) and isinstance(n.value, ast.Name) and n.value.id == "Annotated":
-            elts = n.slice.elts if isinstance(n.slice, ast.Tuple) else [n.slice]
-            if elts:
-                strings(elts[0])
-            return
-        if isinstance(n, ast.Call):
-            return
-        if isinstance(n, ast.Constant) and isinstance(n.value, str):
-            try:
-                sub = ast.parse(n.value, mode="eval").body
-            except SyntaxError:
-                return
-            out.extend(annotation_names(sub))
-            return
-        for c in ast.iter_child_nodes(n):
-            strings(c)
-
-    strings(node)
-    return out
-
-
-def bound_by(stmt: ast.stmt) -> list[str]:
-    if isinstance(stmt, (ast.Import, ast.ImportFrom)):
-        return [(a.asname or a.name).split(".")[0] for a in stmt.names if a.name != "*"]
-    if isinstance(stmt, (ast.ClassDef, ast.FunctionDef, ast.AsyncFunctionDef)):
-        return [stmt.name]
-    if isinstance(stmt, ast.Assign):
-        return [t.id for t in stmt.targets if isinstance(t, ast.Name)]
-    if isinstance(stmt, ast.AnnAssign) and isinstance(stmt.target, ast.Name) and stmt.value is not None:
-        return [stmt.target.id]
-    return []
+BUILTINS = cs.BUILTINS
+names_in = cs.names_in
+annotation_names = cs.annotation_names
+bound_by = cs.bound_by
 
 
 def scope_analysis(code: str) -> list[dict]:
-    """Problems of one module: eager uses not bound by an earlier statement; annotation names bound
-    nowhere; imported names re-bound by a later class or assignment."""
+    """Problems of one module: eager uses not bound by an earlier statement; annotation names (and
+    names in the bodies of lambdas, which run later) bound nowhere; imported names re-bound by a
+    later class or assignment.  Hiding inside class bodies is `classscope.class_scope_problems`."""
     tree = ast.parse(code)
-    future = any(isinstance(s, ast.ImportFrom) and s.module == "__future__" and any(a.name == "annotations" for a in s.names) for s in tree.body)
+    future = cs.has_future_annotations(tree)
     all_bound: set[str] = set()
     for s in tree.body:
         all_bound.update(bound_by(s))
@@ -417,70 +359,97 @@ def scope_analysis(code: str) -> list[dict]:
     bound: set[str] = set()
     imported: dict[str, str] = {}
 
+    def N(node):
+        return names_in(node, lambdas=False)
+
+    def A(node):
+        return annotation_names(node, lambdas=False)
+
     def eager(names, where, local=(), use="eager"):
         for n in names:
             if n in bound or n in BUILTINS or n in local:
                 continue
             probs.append({"mechanism": "order" if n in all_bound else "missing_import", "name": n, "where": where, "use": use})
 
-    def deferred(names, where, local=()):
+    def deferred(names, where, use="annotation"):
         for n in names:
             if n in all_bound or n in BUILTINS:
                 continue
-            probs.append({"mechanism": "missing_import", "name": n, "where": where, "use": "annotation"})
+            probs.append({"mechanism": "missing_import", "name": n, "where": where, "use": use})
+
+    def late(node, where):  # the body of a lambda runs when it is called: module scope, everything defined
+        deferred(cs.lambda_names(node), where, "lambda_body")
 
     def annotation(node, where, local=()):
         if future:
-            deferred(annotation_names(node), where)
+            deferred(A(node), where)
         else:
-            eager([n for n in annotation_names(node)], where, local, "annotation")
+            eager(A(node), where, local, "annotation")
+        late(node, where)
 
     def base(b, cname):
         if isinstance(b, ast.Subscript):
-            eager(names_in(b.value), f"base of {cname}", use="base_class")
-            eager(annotation_names(b.slice), f"generic base argument of {cname}", use="generic_base_argument")
+            eager(N(b.value), f"base of {cname}", use="base_class")
+            eager(A(b.slice), f"generic base argument of {cname}", use="generic_base_argument")
         else:
-            eager(names_in(b), f"base of {cname}", use="base_class")
+            eager(N(b), f"base of {cname}", use="base_class")
+        late(b, f"base of {cname}")
+
+    def class_body(c: ast.ClassDef, qual: str) -> None:
+        local: set[str] = set()
+        for b in c.body:
+            if isinstance(b, ast.AnnAssign) and isinstance(b.target, ast.Name):
+                if b.value is not None:  # the value is evaluated and bound first, then (without the future import) the annotation
+                    eager(N(b.value), f"default in {qual}", local, "default")
+                    late(b.value, f"default in {qual}")
+                    local.add(b.target.id)
+                annotation(b.annotation, f"annotation in {qual}", local)
+            elif isinstance(b, ast.Assign):
+                eager(N(b.value), f"assignment in {qual}", local, "class_assignment")
+                late(b.value, f"assignment in {qual}")
+                local.update(t.id for t in b.targets if isinstance(t, ast.Name))
+            elif isinstance(b, (ast.FunctionDef, ast.AsyncFunctionDef)):
+                for d in b.decorator_list:
+                    eager(N(d), f"decorator in {qual}", local)
+                    late(d, f"decorator in {qual}")
+                local.add(b.name)
+            elif isinstance(b, ast.ClassDef):
+                for bb in b.bases:
+                    eager(N(bb), f"base of nested {b.name}", local)
+                    late(bb, f"base of nested {b.name}")
+                local.add(b.name)
+                class_body(b, qual + "." + b.name)  # own namespace; the enclosing class's is not visible
+            elif isinstance(b, ast.Expr) and not isinstance(b.value, ast.Constant):
+                eager(N(b.value), f"statement in {qual}", local, "statement")
+                late(b.value, f"statement in {qual}")
 
     for s in tree.body:
         if isinstance(s, ast.ClassDef):
             for d in s.decorator_list:
-                eager(names_in(d), f"decorator of {s.name}", use="decorator")
+                eager(N(d), f"decorator of {s.name}", use="decorator")
+                late(d, f"decorator of {s.name}")
             for b in s.bases:
                 base(b, s.name)
             for k in s.keywords:
-                eager(names_in(k.value), f"class keyword of {s.name}", use="class_keyword")
-            local: set[str] = set()
-            for b in s.body:
-                if isinstance(b, ast.AnnAssign):
-                    annotation(b.annotation, f"annotation in {s.name}", local)
-                    if b.value is not None:
-                        eager(names_in(b.value), f"default in {s.name}", local, "default")
-                        if isinstance(b.target, ast.Name):
-                            local.add(b.target.id)
-                elif isinstance(b, ast.Assign):
-                    eager(names_in(b.value), f"assignment in {s.name}", local, "class_assignment")
-                    local.update(t.id for t in b.targets if isinstance(t, ast.Name))
-                elif isinstance(b, (ast.FunctionDef, ast.AsyncFunctionDef)):
-                    for d in b.decorator_list:
-                        eager(names_in(d), f"decorator in {s.name}", local)
-                    local.add(b.name)
-                elif isinstance(b, ast.ClassDef):
-                    for bb in b.bases:
-                        eager(names_in(bb), f"base of nested {b.name}", local)
-                    local.add(b.name)
+                eager(N(k.value), f"class keyword of {s.name}", use="class_keyword")
+                late(k.value, f"class keyword of {s.name}")
+            class_body(s, s.name)
         elif isinstance(s, ast.AnnAssign):
             # `X: TypeAlias = <type>`: the right-hand side is evaluated
             if s.value is not None:
-                eager(annotation_names(s.value) if isinstance(s.annotation, ast.Name) and s.annotation.id == "TypeAlias" else names_in(s.value), "alias right-hand side", use="alias_rhs")
+                eager(A(s.value) if isinstance(s.annotation, ast.Name) and s.annotation.id == "TypeAlias" else N(s.value), "alias right-hand side", use="alias_rhs")
+                late(s.value, "alias right-hand side")
             annotation(s.annotation, "module-level annotation")
         elif isinstance(s, ast.Assign):
-            eager(annotation_names(s.value), "alias right-hand side", use="alias_rhs")
+            eager(A(s.value), "alias right-hand side", use="alias_rhs")
+            late(s.value, "alias right-hand side")
         elif isinstance(s, ast.Expr):
-            eager(names_in(s.value), "statement", use="statement")
+            eager(N(s.value), "statement", use="statement")
+            late(s.value, "statement")
         elif isinstance(s, (ast.FunctionDef, ast.AsyncFunctionDef)):
             for d in s.decorator_list:
-                eager(names_in(d), f"decorator of {s.name}")
+                eager(N(d), f"decorator of {s.name}")
+                late(d, f"decorator of {s.name}")
         for n in bound_by(s):
             if n in imported and not isinstance(s, (ast.Import, ast.ImportFrom)):
                 probs.append({"mechanism": "shadowed_name", "name": n, "where": f"{type(s).__name__} re-binds the name imported from {imported[n]}", "use": "rebinding"})
@@ -600,21 +569,64 @@ def instance_check(mod, kind: str, root: str, instance) -> dict | None:
     return None
 
 
-def dynamic_check(code: str, kind: str, instance=None, root: str = "Model") -> dict | None:
-    """None when the module imports and every model resolves its forward references; else the failure.
-    Only failures of *name binding* count (NameError and the libraries' undefined-annotation errors)."""
+def _exc_event(e: BaseException, code: str, where: str, cls: str | None = None) -> dict:
+    site = cs.exception_site(e, code) if cls is None else {"line": None, "top": cls}
+    kind = "name_error" if (isinstance(e, NameError) or undefined_name(e)) else "environment" if isinstance(e, ImportError) else "exception"
+    return {"where": where, "kind": kind, "type": type(e).__name__, "text": cs.exception_text(e), "undefined": undefined_name(e), "top": site.get("top"), "line": site.get("line")}
+
+
+def _same_type(a, b) -> bool:
+    try:
+        return bool(a == b)
+    except Exception:  # noqa: BLE001
+        return repr(a) == repr(b)
+
+
+def _norm_none(t):
+    return type(None) if t is None else t
+
+
+def _plain_typing(t) -> bool:
+    """the comparison `library-resolved type == annotation evaluated in module scope` is meaningful:
+    no Annotated metadata / constrained-type call inside (pydantic rewrites those), only classes and
+    typing constructs"""
+    seen: set = set()
+
+    def go(x) -> bool:
+        if id(x) in seen:
+            return True
+        seen.add(id(x))
+        if typing.get_origin(x) is typing.Annotated:
+            return False
+        if isinstance(x, (list, tuple)):
+            return all(go(y) for y in x)
+        if typing.get_origin(x) is typing.Literal:
+            return True
+        if not typing.get_args(x):
+            return isinstance(x, type) or x is typing.Any or x is None or getattr(x, "__module__", "") in ("typing", "collections.abc")  # bare `List`, `Dict`, …
+        return all(go(a) for a in typing.get_args(x))
+
+    return go(t)
+
+
+def dynamic_observe(code: str, kind: str, hidings: list[dict], instance=None, root: str = "Model") -> dict:
+    """What really happens: import the module; resolve every class the way its library does
+    (model_rebuild / update_forward_refs / typing.get_type_hints); for dataclasses additionally ask
+    the evaluators that look into the class namespace first (inspect.get_annotations(eval_str=True));
+    compare what the library resolved with the annotation evaluated in the module's global scope.
+    Nothing is swallowed: every exception is an event (the oracle attributes it or files it in a
+    named bucket)."""
+    obs: dict = {"events": [], "silent": [], "hiding": None, "instance": None, "imported": False}
     try:
         mod = e2e.load_module(code, kind)
-    except NameError as e:
-        return {"mechanism": "import_nameerror", "name": undefined_name(e) or "?", "where": "module import", "error": f"NameError: {e}"}
-    except ImportError as e:
-        return {"mechanism": "environment", "name": "", "where": "module import", "error": f"ImportError: {e}"}
     except Exception as e:  # noqa: BLE001
-        n = undefined_name(e)
-        if n:
-            return {"mechanism": "import_nameerror", "name": n, "where": "module import", "error": f"{type(e).__name__}: {e}"}
-        return {"mechanism": "other_error", "name": "", "where": "module import", "error": f"{type(e).__name__}: {str(e)[:200]}"}
+        obs["events"].append(_exc_event(e, code, "module import"))
+        return obs
+    obs["imported"] = True
     try:
+        top_of = {}
+        for c in classes_of(mod):
+            top_of[c] = c.__qualname__.split(".")[0]
         for cls in classes_of(mod):
             try:
                 with warnings.catch_warnings():
@@ -625,27 +637,63 @@ def dynamic_check(code: str, kind: str, instance=None, root: str = "Model") -> d
                     elif kind == "pydantic.BaseModel":
                         if hasattr(cls, "update_forward_refs"):
                             cls.update_forward_refs()
-                    else:
+                    elif not (kind == "dataclasses.dataclass" and dataclasses.is_dataclass(cls)):
                         typing.get_type_hints(cls, include_extras=True)
-            except NameError as e:
-                return {"mechanism": "unresolved_forward_ref", "name": undefined_name(e) or "?", "where": cls.__name__, "error": f"NameError: {e}"}
-            except ImportError as e:
-                return {"mechanism": "environment", "name": "", "where": cls.__name__, "error": f"ImportError: {e}"}
             except Exception as e:  # noqa: BLE001
-                n = undefined_name(e)
-                if n:
-                    return {"mechanism": "unresolved_forward_ref", "name": n, "where": cls.__name__, "error": f"{type(e).__name__}: {str(e)[:200]}"}
-                return {"mechanism": "other_error", "name": "", "where": cls.__name__, "error": f"{type(e).__name__}: {str(e)[:200]}"}
-        hid = hiding_check(mod, kind)
-        if hid:
-            return hid
-        if instance is not None:
-            bad = instance_check(mod, kind, root, instance)
-            if bad:
-                return bad
+                obs["events"].append(_exc_event(e, code, "resolution of " + cls.__name__, cls=top_of[cls]))
+                continue
+            if kind == "dataclasses.dataclass" and dataclasses.is_dataclass(cls):
+                # who evaluates the annotations of a dataclass, against the annotation evaluated in the module's scope
+                expected = {}
+                for m, text in cls.__dict__.get("__annotations__", {}).items():
+                    if isinstance(text, str):
+                        try:
+                            with warnings.catch_warnings():
+                                warnings.simplefilter("ignore")
+                                expected[m] = eval(text, dict(vars(mod)))  # noqa: S307
+                        except Exception:  # noqa: BLE001
+                            pass
+                for consumer, fn in (("typing.get_type_hints", lambda c: typing.get_type_hints(c, include_extras=True)),
+                                     ("inspect.get_annotations(eval_str=True)", lambda c: inspect.get_annotations(c, eval_str=True))):
+                    try:
+                        with warnings.catch_warnings():
+                            warnings.simplefilter("ignore")
+                            seen = fn(cls)
+                    except Exception as e:  # noqa: BLE001
+                        ev = _exc_event(e, code, consumer + " of " + cls.__name__, cls=top_of[cls])
+                        ev["consumer"] = consumer
+                        obs["events"].append(ev)
+                        continue
+                    for m, t in seen.items():
+                        if m in expected and not _same_type(_norm_none(t), _norm_none(expected[m])):
+                            obs["silent"].append({"cls": top_of[cls], "member": m, "consumer": consumer, "resolved": str(t)[:80], "module_scope": str(expected[m])[:80]})
+        # pydantic v2, no exception: what did the library resolve the members to?
+        if kind == "pydantic_v2.BaseModel" and not obs["events"]:
+            for cls in classes_of(mod):
+                if not hasattr(cls, "model_fields"):
+                    continue
+                for m, text in cls.__dict__.get("__annotations__", {}).items():
+                    f = cls.model_fields.get(m)
+                    if not isinstance(text, str) or f is None:
+                        continue
+                    try:
+                        with warnings.catch_warnings():
+                            warnings.simplefilter("ignore")
+                            expected = eval(text, dict(vars(mod)))  # noqa: S307
+                    except Exception:  # noqa: BLE001
+                        continue
+                    have = f.annotation
+                    if typing.get_origin(expected) is typing.Annotated:
+                        expected = typing.get_args(expected)[0]
+                    if not _same_type(_norm_none(expected), _norm_none(have)) and _plain_typing(expected):
+                        obs["silent"].append({"cls": top_of[cls], "member": m, "consumer": "pydantic (class creation)", "resolved": str(have)[:80], "module_scope": str(expected)[:80]})
+        if not obs["events"]:
+            obs["hiding"] = hiding_check(mod, kind)
+            if instance is not None and not obs["hiding"]:
+                obs["instance"] = instance_check(mod, kind, root, instance)
     finally:
         e2e.unload(mod)
-    return None
+    return obs
 
 
 TYPING_NAMES = {"Optional", "Union", "Literal", "List", "Set", "Dict", "Sequence", "FrozenSet", "Mapping", "Any", "Annotated", "TypeAlias", "NotRequired", "TypedDict"}
@@ -668,49 +716,200 @@ def name_class(name: str, code: str) -> str:
     return "other"
 
 
+def counterfactual(code: str, kind: str, ev: dict, hid: list[dict]) -> dict | None:
+    """An import exception that is not raised in a class with a hiding problem: is it nevertheless
+    caused by one?  Rename the hiding member (one class-level binding at a time) and import again; the
+    hiding is the cause when the renamed module imports (or fails differently)."""
+    tried = set()
+    for p in hid:
+        if p["observed_at"] != "import" or (p["cls"], p["name"]) in tried:
+            continue
+        tried.add((p["cls"], p["name"]))
+        new_code = cs.rename_member(code, p["cls"], p["name"], p["name"] + "_renamed_by_verif")
+        if new_code is None:
+            continue
+        try:
+            mod = e2e.load_module(new_code, kind)
+        except Exception as e:  # noqa: BLE001
+            if cs.bucket_key(cs.exception_text(e)) != cs.bucket_key(ev["text"]):
+                return p
+            continue
+        e2e.unload(mod)
+        return p
+    return None
+
+
+class Buckets:
+    """exceptions of emitted modules that are not name-binding failures: counted per bucket, one
+    example each, with the disposition found when the bucket was investigated (cs.TRIAGE)"""
+
+    def __init__(self) -> None:
+        self.by_key: dict[str, dict] = {}
+
+    def add(self, ev: dict, inp: dict, code: str) -> str:
+        disp, owner, why = cs.triage(ev["text"])
+        key = cs.bucket_key(ev["text"])
+        b = self.by_key.setdefault(key, {"count": 0, "disposition": disp, "owner": owner, "why": why, "kinds": {}, "where": ev["where"].split(" of ")[0],
+                                         "example": {"document": inp.get("document"), "model": inp.get("model"), "opts": inp.get("opts"), "target": inp.get("target"),
+                                                     "input_file_type": inp.get("input_file_type"), "exception": ev["text"], "line": ev.get("line"),
+                                                     "source_line": (code.split("\n")[ev["line"] - 1].strip()[:160] if ev.get("line") else None)}})
+        b["count"] += 1
+        b["kinds"][inp.get("model")] = b["kinds"].get(inp.get("model"), 0) + 1
+        return disp
+
+    def evidence(self) -> dict:
+        return dict(sorted(self.by_key.items(), key=lambda kv: (-kv[1]["count"], kv[0])))
+
+
+BUCKETS = Buckets()
+
+
+def shadow_classification(p: dict, kind: str, seen: str, inp: dict, code: str, shown: str = "static") -> dict:
+    return {
+        "shown_as": shown,
+        "oracle": "module_binding",
+        "mechanism": "shadowed_name",
+        "use": "member_hides_name",
+        "name": p["name"],
+        "name_class": p["name_class"],
+        "hider": p["hider"],
+        "hider_binding": p["hider_binding"].split(":")[0],
+        "phase": p["phase"],
+        "use_kind": p["use_kind"],
+        "observed_at": p["observed_at"],
+        "effect": p["effect"],
+        "dict_key_only": bool(p.get("dict_key_only", False)),
+        "kind": kind,
+        "seen": seen,
+        "alias_pass": p["name"].endswith("_aliased") or f"{p['name']} as {p['name']}_aliased" in code,
+        "opts_key": opts_key(inp.get("opts", {})),
+        "keep_model_order": bool(inp.get("opts", {}).get("keep_model_order")),
+    }
+
+
 def oracle_module(ck: Check, camp, inp: dict, code: str, kind: str, executable: bool) -> bool:
-    """The property on one emitted module. Returns True when it holds."""
+    """The property on one emitted module. Returns True when it holds.
+
+    Three views must agree: the static scope analysis (module level: `scope_analysis`, class level:
+    `classscope.class_scope_problems`), the Lean model of the same (`tie_lean`, batched by the
+    caller) and what really happens on import/resolution.  A static hiding that nothing shows
+    dynamically, or a dynamic hiding the static analysis did not predict, is a disagreement."""
     if e2e.parses(code) is not None:
         camp.hit("unparsable(C01)")
         return True
     static = scope_analysis(code)
-    dyn = dynamic_check(code, kind, inp.get("instance"), inp.get("root", "Model")) if executable else None
-    if dyn and dyn["mechanism"] in ("environment", "other_error"):
-        camp.hit("dynamic:" + dyn["mechanism"])
-        if dyn["mechanism"] == "other_error":
-            camp.hit("other_error:" + dyn["error"].split(":")[0])
-        dyn = None
-    problem = None
-    if dyn:
-        # classify through the static analysis when it names the same identifier
-        st = next((p for p in static if p["name"] == dyn["name"]), None)
-        mech = "shadowed_name" if dyn["mechanism"] == "shadowed_name" else st["mechanism"] if st else ("missing_import" if dyn["mechanism"] == "import_nameerror" else "unresolved_forward_ref")
-        if mech == "shadowed_name":
-            st = None
-        problem = {"mechanism": mech, "name": dyn["name"], "where": dyn["where"], "observed": dyn["error"], "seen": "dynamic" + ("+static" if st else ""),
-                   "use": "member_hides_class" if mech == "shadowed_name" else st["use"] if st else "resolution", "hider": dyn.get("hider")}
-    elif static:
+    hid_all = cs.class_scope_problems(code)
+    hid = cs.applicable(hid_all, kind)
+    for p in hid_all:
+        camp.hit(f"static_hiding:{p['phase']}:{p['name_class']}" + ("" if any(q["cls"] == p["cls"] and q["name"] == p["name"] and q["phase"] == p["phase"] and q["user"] == p["user"] for q in hid) else ":kind_not_affected"))
+    buckets = getattr(ck, "buckets", None) or BUCKETS
+    obs = dynamic_observe(code, kind, hid, inp.get("instance"), inp.get("root", "Model")) if executable else None
+    failures: list[tuple[dict, str]] = []  # (classification, observed)
+    base = {"oracle": "module_binding", "kind": kind, "opts_key": opts_key(inp.get("opts", {})), "keep_model_order": bool(inp.get("opts", {}).get("keep_model_order"))}
+
+    def binding_failure(mech: str, name: str, where: str, observed: str, seen: str, use: str, hider=None) -> None:
+        c = dict(base, mechanism=mech, name=name, name_class=name_class(name, code), use=use, seen=seen,
+                 alias_pass=name.endswith("_aliased") or f"{name} as {name}_aliased" in code, text_context=text_context(name, code))
+        if hider:
+            c["hider"] = hider
+        failures.append((c, f"{observed} [{where}]"))
+
+    demonstrated: set[int] = set()
+    if obs:
+        for ev in obs["events"]:
+            if ev["kind"] == "name_error":
+                name = ev["undefined"] or "?"
+                st = next((p for p in static if p["name"] == name), None)
+                at_import = ev["where"] == "module import"
+                mech = st["mechanism"] if st else ("missing_import" if at_import else "unresolved_forward_ref")
+                binding_failure(mech, name, ev["where"], ev["text"], "dynamic" + ("+static" if st else ""), st["use"] if st else "resolution")
+                continue
+            if ev["kind"] == "environment":
+                camp.hit("dynamic:environment")
+                buckets.add(ev, inp, code)
+                continue
+            want = "consumer" if ev.get("consumer") else "import"
+            cands = [i for i, p in enumerate(hid) if p["top"] == ev["top"] and p["observed_at"] == want]
+            cands.sort(key=lambda i: hid[i]["effect"] != "exception")  # the certain raise first
+            if cands:  # an exception of a class whose namespace hides a name its annotations/eager expressions use
+                demonstrated.update(cands)
+                p = hid[cands[0]]
+                failures.append((shadow_classification(p, kind, "static+dynamic", inp, code, "exception"),
+                                 f"{ev['text']} at {ev['where']}: member {p['name']!r} of {p['cls']} ({p['hider_binding']}) hides the name {p['name']} used by the {p['use_kind']} of {p['cls']}.{p['user']}"))
+            else:
+                p = counterfactual(code, kind, ev, hid) if want == "import" and ev["where"] == "module import" else None
+                if p is not None:  # the exception surfaces in another class (pydantic completes a deferred class later): causal test
+                    demonstrated.update(i for i, q in enumerate(hid) if q["cls"] == p["cls"])
+                    camp.hit("attributed_by_counterfactual_rename")
+                    failures.append((shadow_classification(p, kind, "static+dynamic", inp, code, "exception_elsewhere"),
+                                     f"{ev['text']} at {ev['where']} (statement of {ev['top']}); with the member {p['name']!r} of {p['cls']} renamed the module imports: "
+                                     f"it hides the name {p['name']} used by the {p['use_kind']} of {p['cls']}.{p['user']}"))
+                else:
+                    disp = buckets.add(ev, inp, code)
+                    camp.hit("exception_not_name_binding:" + disp)
+        for s in obs["silent"]:
+            cands = [i for i, p in enumerate(hid) if p["cls"] == s["cls"] and p["user"] == s["member"] and p["phase"] == "class_creation" and p["effect"] in ("passed_on", "value_dependent")]
+            if cands:
+                demonstrated.update(cands)
+                p = hid[cands[0]]
+                failures.append((shadow_classification(p, kind, "static+dynamic", inp, code, "differing_resolution"),
+                                 f"{s['consumer']} resolves {s['cls']}.{s['member']} to {s['resolved']} (module scope: {s['module_scope']}): member {p['name']!r} ({p['hider_binding']}) hides the name"))
+            else:
+                ck.disagree(camp, dict(inp, code=code), "static class-scope analysis: nothing hidden for this member", s)
+        if obs["hiding"]:
+            h = obs["hiding"]
+            cands = [i for i, p in enumerate(hid) if p["name"] == h["name"] and p["phase"] == "class_creation"]
+            if cands:
+                demonstrated.update(cands)
+                if not any(c["mechanism"] == "shadowed_name" and c["name"] == h["name"] for c, _ in failures):
+                    failures.append((shadow_classification(hid[cands[0]], kind, "static+dynamic", inp, code, "differing_resolution"), h["error"]))
+            else:
+                ck.disagree(camp, dict(inp, code=code), "static class-scope analysis: no member hides " + h["name"], h["error"])
+                binding_failure("shadowed_name", h["name"], h["where"], h["error"], "dynamic", "member_hides_class", h.get("hider"))
+        if obs["instance"] and not failures:
+            i = obs["instance"]
+            binding_failure("shadowed_name", "", i["where"], i["error"], "dynamic", "member_hides_class", "unknown")
+        # the static analysis predicted a hiding the run does not show: the analysis (or the harness) is wrong
+        if obs["imported"] or any(ev["where"] == "module import" and ev["kind"] == "exception" for ev in obs["events"]):
+            for i, p in enumerate(hid):
+                if i in demonstrated or not p["certain"]:
+                    continue
+                same_class_failed = any(j in demonstrated and hid[j]["top"] == p["top"] for j in range(len(hid)))
+                import_failed_elsewhere = not obs["imported"]
+                if same_class_failed or import_failed_elsewhere:
+                    continue  # the class (or the module) stopped at an earlier failure: this one was not reached
+                ck.disagree(camp, dict(inp, code=code), {k: p[k] for k in ("cls", "name", "phase", "use_kind", "user", "observed_at")}, "no exception and no differing resolution observed")
+    else:
+        for p in hid:  # msgspec: static only — what plain class-body evaluation makes certain
+            if p["effect"] != "exception":
+                continue
+            failures.append((shadow_classification(p, kind, "static", inp, code),
+                             f"static class-scope analysis: member {p['name']!r} of {p['cls']} ({p['hider_binding']}) hides the name {p['name']} used by the {p['use_kind']} of {p['cls']}.{p['user']}"))
+    tie = getattr(ck, "tie_cases", None)
+    if tie is not None:
+        dyn = None if obs is None else ("fails" if any(c["seen"].startswith(("dynamic", "static+dynamic")) for c, _ in failures)
+                                        else "stopped_by_other_exception" if any(ev["kind"] != "name_error" for ev in obs["events"]) else "clean")
+        tie.append({"input": {k: inp.get(k) for k in ("document", "model", "opts", "target", "input_file_type")}, "code": code, "kind": kind,
+                    "python": cs.python_problems(static, hid), "dynamic": dyn})
+    if not failures and static:
         p = static[0]
-        problem = {"mechanism": p["mechanism"], "name": p["name"], "where": p["where"], "observed": f"static scope analysis: {p['name']} ({p['where']})", "seen": "static", "use": p["use"]}
-    if problem is None:
+        binding_failure(p["mechanism"], p["name"], p["where"], f"static scope analysis: {p['name']} ({p['where']})", "static", p["use"])
+    if not failures:
         return True
-    cls = {
-        "oracle": "module_binding",
-        "mechanism": problem["mechanism"],
-        "name": problem["name"],
-        "name_class": name_class(problem["name"], code),
-        "use": problem["use"],
-        # the name is one the pass Parser.__alias_shadowed_imports introduced, or one whose import that pass aliased
-        "alias_pass": problem["name"].endswith("_aliased") or f"{problem['name']} as {problem['name']}_aliased" in code,
-        "kind": kind,
-        "seen": problem["seen"],
-        "opts_key": opts_key(inp.get("opts", {})),
-        "keep_model_order": bool(inp.get("opts", {}).get("keep_model_order")),
-    }
-    if problem.get("hider"):
-        cls["hider"] = problem["hider"]
-    ck.fail(cls, dict(inp, code=code), f"{problem['observed']} [{problem['where']}]")
+    reported = set()
+    for cls, observed in failures:  # every distinct failure of the module (a known one must not mask a new one)
+        key = (cls["mechanism"], cls["name"], cls["use"], cls.get("phase"))
+        if key not in reported:
+            reported.add(key)
+            ck.fail(cls, dict(inp, code=code), observed)
     return False
+
+
+def text_context(name: str, code: str) -> str:
+    """how the unbound name is written (a finding may be about one spelling only)"""
+    if f"{name}[Annotated[" in code:
+        return "wraps_annotated"
+    return "plain"
 
 
 def opts_key(opts: dict) -> str:
@@ -766,7 +965,67 @@ def campaign_hiding(ck: Check, camp, rng: Rng, n: int) -> None:
         e2e_case(ck, camp, doc, kind, dict(rng.choice(HIDE_OPTS)), None, "jsonschema", feats, instance=inst)
 
 
-def campaign_e2e(ck: Check, n: int, n_collide: int, n_gql: int, n_hide: int = 60) -> None:
+def campaign_tie(ck: Check) -> None:
+    """Three voices on every emitted module of the e2e campaign: the Lean checker
+    `Model.ClassScope.problems` (proved to decide `WellBound`, Props/C02 `problems_decide_wellBound`) on
+    the module parsed into the model's syntax, the Python scope analyses, and what importing/resolving
+    the module really did."""
+    camp = ck.campaign("classscope.tie: Lean Model.ClassScope.problems on the parsed emitted module vs the Python scope analyses vs the dynamic observation")
+    t0 = time.time()
+    cases = ck.tie_cases
+    reqs, idx = [], []
+    for i, c in enumerate(cases):
+        line = cs.module_sx(c["code"], c["kind"])
+        if line is None:
+            camp.unmodelled += 1
+            camp.hit("statement_form_not_in_model")
+            continue
+        reqs.append(line)
+        idx.append(i)
+    reps = ck.driver.run(reqs) if reqs else []
+    for i, rep in zip(idx, reps):
+        c = cases[i]
+        camp.evaluations += 1
+        lean = cs.lean_problems(rep)
+        if lean is None:
+            ck.infra_errors.append(f"driver reply {rep[:80]!r} for classscope.check")
+            continue
+        camp.hit("kind:" + c["kind"])
+        camp.hit(f"lean:{'well_bound' if not lean else 'problems'}/python:{'well_bound' if not c['python'] else 'problems'}/dynamic:{c['dynamic'] or 'not_executable'}")
+        for p in lean:
+            camp.hit("problem:" + p[0] + (":" + p[4] + ":" + p[5] if p[0] == "hides" else ""))
+        if lean:
+            camp.distinct.add((c["code"], c["kind"]))
+        if lean != c["python"]:
+            ck.disagree(camp, dict(c["input"], code=c["code"]), sorted(lean - c["python"]), sorted(c["python"] - lean))
+        elif c["dynamic"] == "fails" and not lean:
+            ck.disagree(camp, dict(c["input"], code=c["code"]), "well bound", "the import/resolution shows a name-binding failure")
+        elif lean and len(camp.samples) < 2:
+            camp.samples.append({"model": c["kind"], "document": c["input"]["document"], "lean_problems": sorted(map(list, lean))[:4]})
+    camp.wall_s = time.time() - t0
+
+
+SHADOW_OPTS = [{}, {}, {}, {"use_union_operator": True}, {"use_standard_collections": True}, {"use_annotated": True, "field_constraints": True}, {"field_constraints": True},
+               {"use_generic_container_types": True}, {"enum_field_as_literal": "all"}, {"set_default_enum_member": True}, {"use_default_kwarg": True},
+               {"use_standard_collections": True, "use_union_operator": True}, {"use_field_description": True}, {"use_unique_items_as_set": True}, {"strip_default_none": True}]
+GRID_NAMES = ["Optional", "List", "Dict", "Union", "Literal", "Any", "str", "int", "list", "Field", "field", "BaseModel", "constr", "date", "Model", "Address", "Kind", "Annotated"]
+
+
+def campaign_shadow(ck: Check, camp, rng: Rng, n: int, grid_kinds: list[str]) -> None:
+    """members named like a name the module needs (typing construct, builtin, library name, the
+    class itself, a sibling's class): required / optional / with a default / with a Field(...) value,
+    before and after the members that use the name, in every output kind"""
+    for i, name in enumerate(GRID_NAMES):
+        for j, mode in enumerate(schemagen.SHADOW_MODES):
+            doc = schemagen.shadow_grid_document(name, mode, "first" if (i + j) % 2 == 0 else "last")
+            for kind in grid_kinds:
+                e2e_case(ck, camp, doc, kind, {}, None, "jsonschema", [f"shadow_grid:{mode}"])
+    for i in range(n):
+        doc, feats = schemagen.shadow_document(rng)
+        e2e_case(ck, camp, doc, e2e.MODEL_KINDS[i % 5], dict(rng.choice(SHADOW_OPTS)), None, "jsonschema", feats)
+
+
+def campaign_e2e(ck: Check, n: int, n_collide: int, n_gql: int, n_hide: int = 60, n_shadow: int = 150) -> None:
     camp = ck.campaign("e2e: generate() → import the module → resolve forward references of every model → no member hides a class its annotation names (+ one conforming instance for the member-named-like-its-class family); static scope analysis (5 kinds, msgspec static only)")
     t0 = time.time()
     rng = ck.rng.fork("e2e")
@@ -784,6 +1043,7 @@ def campaign_e2e(ck: Check, n: int, n_collide: int, n_gql: int, n_hide: int = 60
         opts = {k: v for k, v in opts.items() if k in ("use_union_operator", "use_standard_collections", "use_annotated", "field_constraints", "use_default_kwarg", "snake_case_field")}
         e2e_case(ck, camp, sdl, rng.choice(e2e.MODEL_KINDS), opts, target, "graphql", ["graphql"])
     campaign_hiding(ck, camp, ck.rng.fork("hiding"), n_hide)
+    campaign_shadow(ck, camp, ck.rng.fork("shadow"), n_shadow, e2e.MODEL_KINDS)
     camp.wall_s = time.time() - t0
 
 
@@ -868,35 +1128,58 @@ def known_findings(ck: Check) -> None:
         probe.findings = []
         camp = probe.campaign("witness")
         e2e_case(probe, camp, w["document"], w["model"], w.get("opts", {}), w.get("target"), w.get("input_file_type", "jsonschema"), instance=w.get("instance"))
-        if probe.failures:
+        if any(match_finding([f], fl.classification) for fl in probe.failures):
             ck.known(f["id"], f["what"])
+        else:  # the witness no longer fails the way the finding says: the finding is stale (repaired, or its matcher is wrong)
+            ck.notes.setdefault("known_findings_not_reconfirmed", []).append(
+                {"id": f["id"], "witness_failures": [fl.classification for fl in probe.failures][:3]})
 
 
 def run(ck: Check) -> None:
     quick = ck.tier == "quick"
+    ck.buckets = Buckets()
+    ck.tie_cases = []
     ck.prove()
     ck.assumptions += [
-        "Python's name resolution (module scope, class scope, deferred evaluation of annotations under `from __future__ import annotations`) is the static analysis of vlib/props/c02.py, cross-checked by really importing the module",
-        "pydantic 2.13 / pydantic.v1 / dataclasses / typing.get_type_hints decide whether forward references resolve; msgspec output is analysed statically only (msgspec is not installed)",
+        "Python's name resolution (module scope, class scope first inside a class body, deferred evaluation of annotations under `from __future__ import annotations`, lambda bodies run later in module scope, operands evaluated left to right before the operation) is what vlib/props/c02.py scope_analysis, vlib/classscope.py and lean/Dcg/Model/ClassScope.lean state; all three are compared with each other and with really importing the module on every run",
+        "who evaluates annotations in the class namespace: pydantic v2 at class creation (class's own name on top; NameError = forward reference, re-evaluated after the members' values are deleted), dataclass consumers inspect.get_annotations(eval_str=True) / pydantic.TypeAdapter (typing.get_type_hints only for builtin names), nobody for pydantic v1 and TypedDict; msgspec's own resolution is not claimed (msgspec is not installed: its output is judged statically, by what plain class-body evaluation makes certain)",
+        "pydantic 2.13 / pydantic.v1 / dataclasses / typing.get_type_hints / inspect.get_annotations decide whether forward references resolve and what the members resolve to",
         "only Python 3.12 executes the output; other target versions are generated and analysed but run on 3.12",
-        "DataType.type_hint has been evaluated before DataType.imports is read (DataModelFieldBase.imports does so); is_func/kwargs and Field()/Annotated imports of the field classes are outside Model.Imports",
+        "DataType.type_hint has been evaluated before DataType.imports is read (DataModelFieldBase.imports does so); is_func/kwargs of constrained types are outside Model.Imports (covered by the field/model imports campaign on the real classes)",
     ]
     campaign_histories(ck, 400 if quick else 4000)
     campaign_prune(ck, 200 if quick else 3000)
     campaign_type_imports(ck, 800 if quick else 4000, thorough=not quick)
-    campaign_e2e(ck, 520 if quick else 3000, 140 if quick else 800, 60 if quick else 300, 80 if quick else 800)
+    campaign_e2e(ck, 520 if quick else 3000, 140 if quick else 800, 60 if quick else 300, 80 if quick else 800, 150 if quick else 1500)
+    campaign_tie(ck)
+    fieldcover.campaign(ck, 600 if quick else 6000)
     ck.search_hooks.append(search_after_break)
     known_findings(ck)
+    ck.notes["exceptions_not_name_binding"] = {
+        "rule": "every exception raised by importing an emitted module or by resolving/consuming its classes that the static class-scope analysis does not attribute to a hidden "
+                "or unbound name; bucket = exception type + message with quoted names blanked; disposition from the investigation recorded in vlib/classscope.py TRIAGE "
+                "(environment = the sandbox lacks a package; other_property = the failure belongs to the named check and is ignored here; untriaged = not seen before, look at the example)",
+        "buckets": ck.buckets.evidence(),
+    }
 
 
 def replay(ck: Check, path: str) -> int:
+    """the oracle's own verdict on one recorded input (known findings do not silence it; a failure
+    that a known finding explains is labelled)"""
     data = json.loads(open(path).read())
     inp = data.get("input") or {}
+    findings, ck.findings = ck.findings, []
+    ck.buckets = Buckets()
     camp = ck.campaign("replay")
     if "document" in inp:
         e2e_case(ck, camp, inp["document"], inp["model"], inp.get("opts", {}), inp.get("target"), inp.get("input_file_type", "jsonschema"), instance=inp.get("instance"))
     for f in ck.failures:
-        print("REPLAY-FAILS:", json.dumps(f.classification), f.observed[:300])
+        k = match_finding(findings, f.classification)
+        print("REPLAY-FAILS" + (f" (known finding {k['id']})" if k else "") + ":", json.dumps(f.classification), f.observed[:300])
+    for d in ck.disagreements:
+        print("REPLAY-DISAGREEMENT:", str(d.model)[:200], "|", str(d.impl)[:200])
+    for key, b in ck.buckets.evidence().items():
+        print(f"REPLAY-EXCEPTION-NOT-NAME-BINDING: {key} [{b['disposition']}: {b['owner']}]")
     if not ck.failures:
         print("replay: the oracle does not fail on this input")
-    return 1 if ck.failures else 0
+    return 1 if ck.failures or ck.disagreements else 0
